@@ -811,6 +811,18 @@ EGLPNUM_TYPENAME_QSLIB_INTERFACE EGLPNUM_TYPENAME_QSdata *EGLPNUM_TYPENAME_QScop
 	p2->factorok = 0;
 	p2->simplex_display = p->simplex_display;
 	p2->simplex_scaling = p->simplex_scaling;
+	/* the limits are parameters of the problem like the others (the scaled copy
+	 * that opt_work solves first has to honour them too) */
+	p2->lp->maxiter = p->lp->maxiter;
+	p2->lp->maxtime = p->lp->maxtime;
+	EGLPNUM_TYPENAME_EGlpNumCopy (p2->uobjlim, p->uobjlim);
+	EGLPNUM_TYPENAME_EGlpNumCopy (p2->lobjlim, p->lobjlim);
+	if (p2->qslp->objsense == QS_MAX)
+		EGLPNUM_TYPENAME_ILLsimplex_set_bound (p2->lp,
+			(const EGLPNUM_TYPE *) (&(p2->lobjlim)), QS_MAX);
+	else
+		EGLPNUM_TYPENAME_ILLsimplex_set_bound (p2->lp,
+			(const EGLPNUM_TYPE *) (&(p2->uobjlim)), QS_MIN);
 	/* copy the pricing rules only: the norm arrays, partial pricing buckets and
 	 * the heap of p->pricing belong to p and must not be shared with the copy */
 	p2->pricing->pI_price = p->pricing->pI_price;
